@@ -11,7 +11,7 @@ one() {
   echo "$res $id $f"
 }
 export -f one
-echo "$list" | xargs -P 3 -I{} bash -c 'one {}' | tee $out
+echo "$list" | xargs -P 2 -I{} bash -c 'one {}' | tee $out
 echo "---- not detected:"; grep -v "^exit=1 " $out
 echo "total $(wc -l < $out), detected $(grep -c '^exit=1 ' $out)"
 rm -f $out
